@@ -419,7 +419,7 @@ CONFIG['C02'] = _resize_cfg(
     ["shuffle masks, lane placement and load widths are modelled and proved for every SIMD convolution kernel of U8x4 and the vertical kernels of all 8-bit types (U8x4 SSE4.1 horizontal pass: "
      "u8x4_sse4_one_row_eq_portable, u8x4_sse4_four_rows_eq_portable, masks re-extracted from the source; SSE4.1 vertical pass of all 8-bit "
      "types: vert_u8_sse4_chunk32/8/4_eq_portable, its AVX2 twin, the AVX2 four-row U8x4 kernel by reduction to the 128-bit halves, the AVX2 one-row kernel u8x4_avx2_one_row_eq_portable; call sequences pinned, the lane models also executed against the real kernels); for all "
-     "other kernels (16-bit, float, horizontal kernels of U8 / U8x2 / U8x3, alpha kernels) they are tied by "
+     "other kernels (16-bit, float, the remaining horizontal kernels of U8 / U8x2 / U8x3 - the SSE4.1 one-row kernel of U8x3 is proved too, incl. its width-dependent loop exits -, alpha kernels) they are tied by "
      "correspondence only; NEON and WASM kernels cannot be executed here",
      "float formats: reassoc_err bounds the difference of two summation orders by (gamma(d)+gamma(d'))*sum|x k| under the standard rounding "
      "model (premise); the oracle applies a tolerance of a few f32 ulps",
@@ -443,7 +443,8 @@ CONFIG['C03'] = _resize_cfg(
     "fits the min(2*ceil(r)+1, in_size) slots reserved for it (xmin_le_xmax, span_le_window); every reachable precision has a dispatch arm (translated arm list); together with the "
     "overflow-freedom theorems of C04, C06, C08, C17 and the in-bounds theorems of C09, C11. Outcome classes are compared with the real "
     "code in two build profiles behind guard pages.",
-    ["SIMD load footprints are covered by guard pages in the correspondence, not by theorem; the allocator and rayon internals are outside",
+    ["SIMD load footprints are covered by guard pages in the correspondence; for one kernel (U8x3, SSE4.1, one row: 16- / 8-byte loads over "
+     "3-byte pixels with width-dependent loop exits) they are a theorem (u8x3_sse4_one_row_loads_in_row); the allocator and rayon internals are outside",
      "memory safety of the unsafe blocks is argued from the index theorems; the Rust code itself is not verified (no Rust semantics in Lean)",
      "custom kernels are drawn from three parametric families that exist on both sides of the protocol"],
     "Lean 4 theorems over a float-oblivious bounds model and translated index arithmetic + outcome-class correspondence in two profiles with guard pages")
